@@ -1352,12 +1352,17 @@ def interplay_docs() -> list[tuple[str, dict]]:
         S2 = {nm: {"type": "object", "properties": {"a": {"type": "string"}, "self_ref": R(nm), "day": {"type": "string", "format": "date"}}}, "Holder": {"type": "object", "properties": {"m": R(nm), "ms": {"type": "array", "items": R(nm)}, "u": {"oneOf": [R(nm), {"type": "integer"}]}}}}
         mk(f"model_named_{nm}", schemas=S2, paths={"/m": {"post": {"operationId": "post_m", "requestBody": {"content": {"application/json": {"schema": R(nm)}}}, "responses": {"200": {"description": "ok", "content": {"application/json": {"schema": R(nm)}}}}}}})
     # two enum declarations deriving one class name whose values differ only in what member naming erases (case, punctuation, leading digits)
-    for label, v1, v2 in (("case_punct", ["On-Hold", "open"], ["on_hold", "open"]), ("case", ["active", "idle"], ["Active", "IDLE"]), ("positional", ["1-queued", "2-done"], ["3-failed", "4-gone"])):
+    for label, v1, v2 in (("case_punct", ["On-Hold", "open"], ["on_hold", "open"]), ("case", ["active", "idle"], ["Active", "IDLE"]), ("positional", ["1-queued", "2-done"], ["3-failed", "4-gone"]),
+                          ("subset", ["queued", "running", "done"], ["queued", "running"]), ("superset", ["queued", "running"], ["queued", "running", "done"]), ("equal", ["queued", "done"], ["queued", "done"]),
+                          ("int_subset", [1, 2, 3], [1, 2]), ("overlap", ["queued", "running"], ["running", "done"])):
         for order in (0, 1):
-            S = {"TicketState": {"type": "string", "enum": v1}, "Holder": {"type": "object", "properties": {"s": R("TicketState"), "l": {"type": "array", "items": R("TicketState")}}, "required": ["s"]},
-                 "Ticket": {"type": "object", "properties": {"state": {"type": "string", "enum": v2}, "id": {"type": "integer"}}}}
+            t_ = "string" if isinstance(v1[0], str) else "integer"
+            S = {"TicketState": {"type": t_, "enum": v1}, "Holder": {"type": "object", "properties": {"s": R("TicketState"), "l": {"type": "array", "items": R("TicketState")}}, "required": ["s"]},
+                 "Ticket": {"type": "object", "properties": {"state": {"type": t_, "enum": v2}, "id": {"type": "integer"}}},
+                 # two *inline* enums deriving one class name (Job + state_kind, JobState + kind)
+                 "Job": {"type": "object", "properties": {"state_kind": {"type": t_, "enum": v1}, "n": {"type": "integer"}}}, "JobState": {"type": "object", "properties": {"kind": {"type": t_, "enum": v2}}}}
             if order:
-                S = {k_: S[k_] for k_ in ("Ticket", "Holder", "TicketState")}
+                S = {k_: S[k_] for k_ in ("JobState", "Ticket", "Holder", "TicketState", "Job")}
             mk(f"enum_same_class_name_{label}_{order}", schemas=S)
     # nullable beside an explicit type and a single-element wrapper around a reference / a formatted string
     for version in ("3.0.3", "3.1.0"):
@@ -1387,6 +1392,21 @@ def interplay_docs() -> list[tuple[str, dict]]:
             S = {k_: S[k_] for k_ in ("ChildBare", "Item", "Sibling", "Parent", "ChildReversed", "ChildNarrowed", "GrandChild", "ChildDescribed", "ChildOnlyRequired")}
         mk(f"redeclared_required_{order}", schemas=S, paths={"/p": {"post": {"operationId": "post_p", "requestBody": {"content": {"application/json": {"schema": R("Parent")}}},
                                                                               "responses": {"200": {"description": "ok", "content": {"application/json": {"schema": R("ChildBare")}}}}}}})
+    # unions that collapse to one member (a single inline object / the same reference twice / a one-element type list): annotated as the member,
+    # decoded and encoded through the union machinery (isinstance checks need the member class at run time)
+    for version in ("3.0.3", "3.1.0"):
+        for kw in ("oneOf", "anyOf"):
+            inl = {"type": "object", "properties": {"sku": {"type": "string"}, "qty": {"type": "integer"}}, "required": ["sku"]}
+            props = {"single_inline": {kw: [clone(inl)]}, "single_ref": {kw: [R("Item")]}, "same_ref_twice": {kw: [R("Item"), R("Item")]}, "entries": {"type": "array", "items": {kw: [clone(inl)]}},
+                     "ref_entries": {"type": "array", "items": {kw: [R("Item"), R("Item")]}}, "single_enum": {kw: [R("Colour")]}, "single_date": {kw: [{"type": "string", "format": "date"}]},
+                     "nullable_single_inline": dict({kw: [clone(inl)]}, **({"nullable": True} if version == "3.0.3" else {})), "extras": {"type": "object", "additionalProperties": {kw: [clone(inl)]}}}
+            if version == "3.1.0":
+                props["one_type_list"] = {"type": ["object"], "properties": {"a": {"type": "string"}}}
+                props["one_type_list_items"] = {"type": "array", "items": {"type": ["object"], "properties": {"b": {"type": "integer"}}}}
+                props["nullable_single_inline"] = {kw: [clone(inl), {"type": "null"}]}
+            S = {"Item": {"type": "object", "properties": {"k": {"type": "string"}}}, "Colour": {"type": "string", "enum": ["red", "green"]}, "Basket": {"type": "object", "required": ["single_inline", "entries"], "properties": props}}
+            mk(f"single_member_union_{kw}_{version}", schemas=S, version=version,
+               paths={"/b": {"post": {"operationId": "create_basket", "requestBody": {"content": {"application/json": {"schema": R("Basket")}}}, "responses": {"200": {"description": "ok", "content": {"application/json": {"schema": R("Basket")}}}}}}})
     # tags and operation ids named after the package's own modules and dunder files
     for tag in ("types", "errors", "client", "models", "api", "init", "__init__", "default", "py.typed", "import", "None"):
         mk(f"tag_{tag}", schemas={"M": {"type": "object", "properties": {"a": {"type": "string"}}}},
